@@ -254,7 +254,11 @@ def run(rep):
             r = B.reachable_from([bb])
             rep.check(not any(p in r for p in pushes), 'C11.R3.duplicate-first', f'duplicate-first:{gname}', B.where(bb),
                       'NonConsecutiveBindGroups can be returned before all variables were scanned for duplicates', ok_detail='only after the scan loop')
-    tops = sorted(n for n, b in mir.bodies.items() if b.kind != 'Closure' and n not in G and any(cname(t) in G for _, t in b.calls()))
+    # front-end helpers (a `check_module` that validates and then returns the group data ..) are inlined into the function that joins the front
+    # end with the emission functions: R5 is judged there
+    from engine_mir import inline_front_end
+    _top, _helpers = inline_front_end(mir, extra=set(G) | set(helper_parents))
+    tops = sorted(n for n, b in mir.bodies.items() if b.kind != 'Closure' and n not in G and n not in _helpers and any(cname(t) in G for _, t in b.calls()))
     for n in Gn:
         if n in G:
             continue
